@@ -139,9 +139,11 @@ class Driver:
     def run(self, lines, timeout=3000):
         rw = os.path.join(LEAN, "Netconan", "Generated", "reserved_words.txt")
         pre = ["loadreserved " + rw] if os.path.exists(rw) and any(l.startswith("fanew") for l in lines) else []
+        if any(l.startswith("fanew") and " pwd=1" in l for l in lines):
+            pre += passlib_table()
         if pre:
             out = self.run_raw(pre + list(lines), timeout)
-            return out[1:]
+            return out[len(pre):]
         return self.run_raw(lines, timeout)
 
     def run_raw(self, lines, timeout=3000):
@@ -155,6 +157,34 @@ class Driver:
         if len(out) != len(lines):
             raise Infra("driver answered %d lines for %d ops" % (len(out), len(lines)))
         return out
+
+
+_PL = None
+
+
+def passlib_table(n=130):
+    """`pl` lines handing passlib's values for the pseudonyms to the model (external functions are parameters);
+    cached on disk because they depend on passlib only"""
+    global _PL
+    if _PL is not None:
+        return _PL
+    cache = os.path.join(LEAN, ".lake", "passlib_cache.json")
+    try:
+        d = json.load(open(cache))
+    except Exception:  # noqa
+        d = {}
+    if d.get("n") != n:
+        from passlib.hash import md5_crypt, sha512_crypt
+        d = {"n": n, "rows": []}
+        for k in range(n):
+            p = "netconanRemoved%d" % k
+            for sl in range(0, 9):
+                d["rows"].append(["m%d:%s" % (sl, p), md5_crypt.using(salt="0" * sl).hash(p)])
+            d["rows"].append(["s:" + p, sha512_crypt.using(rounds=5000, salt="0" * 16).hash(p)])
+        os.makedirs(os.path.dirname(cache), exist_ok=True)
+        json.dump(d, open(cache, "w"))
+    _PL = ["pl %s %s" % (cps(k), cps(v)) for k, v in d["rows"]]
+    return _PL
 
 
 def hexs(s):
